@@ -445,3 +445,61 @@ def _instant_contracts(pname, expr, frac):
 
 _instant_contracts("general", "T.InstantPattern.general", False)
 _instant_contracts("extended_iso", "T.InstantPattern.extended_iso", True)
+
+
+# ------------------------------------------------------------------------------------------------- definitions of the built-in pattern texts
+DOCUMENTED_TEXTS = {
+    "T.LocalDatePattern.iso": "uuuu'-'MM'-'dd",
+    "T.LocalTimePattern.extended_iso": "HH':'mm':'ss;FFFFFFFFF",
+    "T.LocalTimePattern.long_extended_iso": "HH':'mm':'ss;fffffffff",
+    "T.LocalTimePattern.general_iso": "HH':'mm':'ss",
+    "T.LocalDateTimePattern.general_iso": "uuuu'-'MM'-'dd'T'HH':'mm':'ss",
+    "T.LocalDateTimePattern.extended_iso": "uuuu'-'MM'-'dd'T'HH':'mm':'ss;FFFFFFFFF",
+    "T.LocalDateTimePattern.bcl_round_trip": "uuuu'-'MM'-'dd'T'HH':'mm':'ss'.'fffffff",
+    "T.LocalDateTimePattern.full_roundtrip_without_calendar": "uuuu'-'MM'-'dd'T'HH':'mm':'ss'.'fffffffff",
+    "T.LocalDateTimePattern.full_roundtrip": "uuuu'-'MM'-'dd'T'HH':'mm':'ss'.'fffffffff '('c')'",
+    "T.InstantPattern.general": "uuuu-MM-ddTHH:mm:ss'Z'",
+    "T.InstantPattern.extended_iso": "uuuu'-'MM'-'dd'T'HH':'mm':'ss;FFFFFFFFF'Z'",
+    "T.OffsetPattern.general_invariant": "g",
+    "T.OffsetPattern.general_invariant_with_z": "G",
+}
+
+
+def _pattern_text(p):
+    # LocalDateTimePattern keeps the text in a private field only
+    return p.pattern_text if hasattr(p, "pattern_text") else p._LocalDateTimePattern__pattern_text
+
+
+@contract("contracts.c17_iso:_pattern_text", "C17", name="the built-in ISO / round-trip patterns are defined with the documented pattern texts")
+def _(c):
+    from pyvc.contracts import Int as _I
+
+    c.arg("p", _I())
+    c.ground = lambda: [{"p": _pat(k)(), "name": k} for k in DOCUMENTED_TEXTS]
+    c.ground_interp_stride = 10**9
+    c.returns(lambda a, r: r == DOCUMENTED_TEXTS[a.name])
+
+
+# quick-tier slice of the instant pattern with fractions (the full case split runs in the thorough tier)
+@contract(TXT + "_instant_pattern:InstantPattern.format", "C17", "C07", name="InstantPattern.extended_iso.format for instants with nine significant fraction digits: YYYY-MM-DDTHH:mm:ss.fffffffffZ (quick-tier slice)")
+def _(c):
+    P = _pat("T.InstantPattern.extended_iso")
+    c.ghost("cal", IsoStdCalG("cal")).arg("self", Const(P)).arg("value", InstantG())
+    c.setup = _setup
+    c.timeout_s = 240
+    c.vc_chunks = 3
+    c.weight = 6
+    c.tiers = ("quick",)
+    ns = lambda a: V.inst_ns(a.value)  # noqa: E731
+    c.requires(lambda a: And(ns(a) // V.NPD >= CA.soy(a.cal.cid, 0), ns(a) // V.NPD < CA.soy(a.cal.cid, 10000), ns(a) % 10 != 0))
+    c.lemma(lambda a: hms_lemma(ns(a) % V.NPD))
+
+    def post(a, r):
+        want_shape = "dddd-dd-ddTdd:dd:dd.dddddddddZ"
+        if len(SS.chars_of(r)) != len(want_shape):
+            return False
+        y, m, d = num(r, 0, 4), num(r, 5, 7), num(r, 8, 10)
+        h, mi, s, f_ = hms(ns(a) % V.NPD)
+        return And(shape(r, want_shape), a.cal.valid_date(y, m, d), CA.dse(a.cal.cid, y, m, d) == ns(a) // V.NPD, num(r, 11, 13) == h, num(r, 14, 16) == mi, num(r, 17, 19) == s, num(r, 20, 29) == f_)
+
+    c.returns(post)
